@@ -28,7 +28,7 @@ TIMEOUT = {'quick': 1500, 'thorough': 10800}
 WORKERS = 10
 ARRANGEMENTS = ('same-dir', 'subdirs-I', 'other-cwd-relative', 'absolute', 'include-twice', 'dotdot-include',
                 'dot-slash-include', 'absolute-include', 'I-subpath-nested', 'files-named-like-types',
-                'declaration-less-file', 'two-dirs-mixed', 'I-order')
+                'declaration-less-file', 'two-dirs-mixed', 'I-order', 'abs-I-rel-inputs')
 
 
 def shards(ctx):
@@ -170,7 +170,7 @@ def run_case(acc, audit, wd, idx, sch, rng, arrangement, want_cpp, seed):
     incdirs = []
     subdir = {}
     for i, (fn, part, incs) in enumerate(files):
-        subdir[fn] = ('dir%d' % (i % 2) if arrangement == 'subdirs-I' else
+        subdir[fn] = ('dir%d' % (i % 2) if arrangement in ('subdirs-I', 'abs-I-rel-inputs') else
                       'd%d' % i if arrangement == 'dotdot-include' else
                       # two directories; a file names siblings barely and the others as ../dK/f, the others first
                       'd%d' % (i % 2) if arrangement == 'two-dirs-mixed' else
@@ -185,7 +185,7 @@ def run_case(acc, audit, wd, idx, sch, rng, arrangement, want_cpp, seed):
         dd = os.path.join(split_dir, 'src', sub)
         if not os.path.isdir(dd):
             os.makedirs(dd)
-        if arrangement == 'subdirs-I' and dd not in incdirs:
+        if arrangement in ('subdirs-I', 'abs-I-rel-inputs') and dd not in incdirs:
             incdirs.append(dd)
         paths[fn] = os.path.join(dd, fn)
         if arrangement == 'I-subpath-nested':
@@ -234,6 +234,10 @@ def run_case(acc, audit, wd, idx, sch, rng, arrangement, want_cpp, seed):
             os.chdir(root)
             inputs = [os.path.relpath(paths[fn], root) for fn in order]
             args = [os.path.relpath(a, root) if a.startswith(root) else a for a in args]
+        elif arrangement == 'abs-I-rel-inputs':
+            # the same file is reached under two spellings: relative (next to a relative input) and absolute (through -I)
+            os.chdir(root)
+            inputs = [os.path.relpath(paths[fn], root) for fn in order]
         else:
             inputs = [paths[fn] for fn in order]
         audit.start()
